@@ -120,6 +120,7 @@ private:
     // simulated wall clock (simclock.cpp)
     uint64_t clockJumpSeed{0};
     bool probed64{false};
+    uint64_t statusUpdates{0};
     bool shareInput{false};  // C19: receive buffers interned per content and shared between the threads
     uint64_t clockOffsetNs{0};
     uint64_t clockTicks{0};
@@ -142,7 +143,8 @@ private:
         bool fromWire{false};
         lib::BuildData prevBd;  // content of the previous step (near-identical follow-ups)
         bool hasPrevBd{false};
-        bool everSet{false};  // setData has been called on this object at least once
+        bool everSet{false};
+        uint64_t setCalls{0};  // setData has been called on this object at least once
         Bytes wireHeader;  // from-wire objects: the header bytes they were born with (length / DLC bytes zeroed)
     };
     std::map<int, BuilderSlot> builders;
